@@ -599,6 +599,8 @@ def num_binop(I_, op, a, b, st, ctx, k, node):
     opname = {ast.BitAnd: "and", ast.BitOr: "or", ast.BitXor: "xor"}[type(op)]
     res, pre = bitop_sym(I_, opname, a, b, st, ctx, node)
     if not st.entails(pre, "bitop-range"):
+      import os as _os
+      if _os.environ.get("PYVC_DEBUG"): sys.stderr.write("BITOP a=%s\n b=%s\n" % (str(a)[:600], str(b)[:600]))
       raise Unsupported("bit operation on operands not known to be in [0,2^%d) at %s" % (BITW, I_.where(ctx, node)))
     return k(st, res)
   raise Unsupported("int op %s" % type(op).__name__)
@@ -1277,6 +1279,14 @@ def getattr_value(I_, obj, name, st, ctx, k, node=None):
       if name == "__class__":
         return k(st, o.cls)
       return k(st, BuiltinMethod(name, obj))
+    if o.kind == "gen":
+      if name == "__class__":
+        return k(st, o.cls)
+      if name in ("send", "throw", "close", "__next__", "__iter__"):
+        return k(st, BuiltinMethod(name, obj))
+      if name == "__name__":
+        return k(st, o.data["name"].split(".")[-1])
+      return I_.raise_exc(st, ctx, AttributeError, "'generator' object has no attribute '%s'" % name, node)
   if isinstance(obj, SuperProxy):
     target = obj.obj
     tcls = type_of(I_, target, st) if not isinstance(target, type) else target
@@ -1316,6 +1326,8 @@ def getattr_value(I_, obj, name, st, ctx, k, node=None):
       return k(st, obj.args[0] if obj.args else "")
     if name == "__class__":
       return k(st, obj.cls)
+    if name == "value" and issubclass(obj.cls, StopIteration):
+      return k(st, obj.args[0] if obj.args else None)
     raise Unsupported("attribute %s of exception value" % name)
   if isinstance(obj, Closure):
     if name == "__name__":
